@@ -12,7 +12,7 @@ import SqModel.Generated.TransSafe
 import SqModel.Proofs.BridgeTable
 
 namespace Sq.Safe
-open Sq Bridge
+open Sq Bridge Spec
 
 theorem bit_location_safe (p : Nat) (h : 1 ≤ p) : T.bit_location.safe p := by
   unfold T.bit_location.safe; exact ⟨h, h⟩
@@ -162,6 +162,373 @@ theorem get_icao_safe (m : Msg) (df : Nat) (h : 14 ≤ m.length) (hl : m.length 
   intro _
   split
   · exact get_crc_safe m df hfit hl32
+  · trivial
+
+
+/-! ### field decoders (a 112-bit frame of nibbles: `Long m`) -/
+
+theorem u32ToI32_small (x : Nat) (h : x < 2147483648) : u32ToI32 x = (x : Int) := by
+  unfold u32ToI32; simp [h]
+
+/-- the value a `(flag, field)` extraction yields, with its bounds -/
+theorem frv (m : Msg) (L : Long m) (flag sb eb : Nat) (hf : 1 ≤ flag) (hf2 : flag ≤ 112) (h1 : 1 ≤ sb) (h2 : sb ≤ eb) (h3 : eb ≤ 112) :
+    ∃ f v, flagAndRangeValue m flag sb eb = some (f, v) ∧ f < 2 ∧ v < 2 ^ (eb + 1 - sb) := by
+  have hl := L.len
+  refine ⟨field m flag flag, field m sb eb, flagAndRangeValue_eq m L.nib flag sb eb hf (by omega) h1 h2 (by omega), ?_, field_lt m sb eb⟩
+  have := field_lt m flag flag
+  have e : flag + 1 - flag = 1 := by omega
+  rw [e] at this; exact this
+
+theorem me_code_safe (m : Msg) (L : Long m) : T.me_code.safe m := by
+  unfold T.me_code.safe; have := L.len; omega
+
+theorem vertical_rate_value_safe (sign value : Nat) (h1 : 1 ≤ value) (h2 : value < 512) : T.vertical_rate_value.safe sign value := by
+  unfold T.vertical_rate_value.safe
+  refine ⟨h1, fun _ => ?_⟩
+  have hb : (value - 1) <<< 6 < 2147483648 := by
+    rw [Nat.shiftLeft_eq]; omega
+  rw [u32ToI32_small _ hb]
+  have : (0 : Int) ≤ (((value - 1) <<< 6 : Nat) : Int) := Int.natCast_nonneg _
+  omega
+
+theorem vertical_rate_safe (m : Msg) (L : Long m) : T.vertical_rate.safe m := by
+  unfold T.vertical_rate.safe
+  have hl := L.len
+  refine ⟨by omega, by omega, by omega, ?_⟩
+  obtain ⟨f, v, hv, _, hb⟩ := frv m L 69 70 78 (by decide) (by decide) (by decide) (by decide) (by decide)
+  rw [hv]
+  simp only [Option.filter]
+  split
+  · rename_i sign value heq
+    split at heq
+    · rename_i hne
+      injection heq with heq; injection heq with e1 e2
+      subst e1 e2
+      exact vertical_rate_value_safe f v (by simp at hne; omega) (by simpa using hb)
+    · cases heq
+  · trivial
+
+theorem version_safe (m : Msg) (L : Long m) : T.version.safe m := by
+  unfold T.version.safe; have := L.len; omega
+
+theorem surveillance_status_safe (m : Msg) (L : Long m) : T.surveillance_status.safe m := by
+  unfold T.surveillance_status.safe; have := L.len; omega
+
+theorem ground_movement_safe (m : Msg) (L : Long m) : T.ground_movement.safe m := by
+  unfold T.ground_movement.safe; have := L.len; omega
+
+theorem delta_safe (sign value : Nat) (h : value < 128) : T.delta.safe sign value := by
+  unfold T.delta.safe
+  rw [u32ToI32_small value (by omega)]
+  have : (0 : Int) ≤ (value : Int) := Int.natCast_nonneg _
+  have h' : (value : Int) < 128 := by exact_mod_cast h
+  refine ⟨fun _ => by omega, fun _ => by omega, fun _ => by omega⟩
+
+theorem altitude_delta_safe (m : Msg) (L : Long m) : T.altitude_delta.safe m := by
+  unfold T.altitude_delta.safe
+  have hl := L.len
+  refine ⟨by omega, by omega, by omega, ?_⟩
+  obtain ⟨f, v, hv, _, hb⟩ := frv m L 81 82 88 (by decide) (by decide) (by decide) (by decide) (by decide)
+  rw [hv]
+  simp only [Option.filter]
+  split
+  · rename_i sign value heq
+    split at heq
+    · injection heq with heq; injection heq with e1 e2
+      subst e1 e2
+      exact delta_safe f v (by simpa using hb)
+    · cases heq
+  · trivial
+
+theorem altitude_gnss_safe (m : Msg) (L : Long m) : T.altitude_gnss.safe m := by
+  unfold T.altitude_gnss.safe; have := L.len; omega
+
+
+set_option hygiene false in
+/-- unpack a `(flag, field)` extraction in the goal: afterwards the goal speaks about `f_ < 2` and `v_ < 2^width` -/
+macro "frv_cases" m:term:max L:term:max f:num s:num e:num : tactic =>
+  `(tactic| (obtain ⟨f_, v_, hv_, hf_, hb_⟩ := frv $m $L $f $s $e (by decide) (by decide) (by decide) (by decide) (by decide)
+             simp only [hv_, Option.filter]
+             simp only [Nat.reducePow, Nat.reduceAdd, Nat.reduceSub] at hb_))
+
+theorem maCode_lt (m : Msg) : maCode m < 16384 := by
+  unfold maCode
+  simp only [Gen.maBitPositions, Gen.maTopShift, List.zipIdx, List.foldl_cons, List.foldl_nil]
+  have hb : ∀ x s : Nat, s ≤ 13 → (x &&& 1) <<< s < 2 ^ 14 := by
+    intro x s hs
+    have h1 : x &&& 1 ≤ 1 := Nat.and_le_right
+    have : x &&& 1 < 2 ^ 1 := by omega
+    exact Nat.lt_of_lt_of_le (shl_lt (b := s) this) (Nat.pow_le_pow_right (by decide) (by omega))
+  have e : (16384 : Nat) = 2 ^ 14 := by decide
+  rw [e]
+  repeat (first | apply Nat.or_lt_two_pow | exact hb _ _ (by decide) | exact Nat.two_pow_pos 14)
+
+
+theorem grayLoop_inv (n : Nat) (l : List Nat) : ∀ st : Nat × Bool × Nat, st.1 ≤ 128 → st.2.2 < 256 →
+    (l.foldl (fun (st : Nat × Bool × Nat) _ =>
+      let (mask, cp, result) := st
+      let cp := if n &&& mask != 0 then !cp else cp
+      let result := if cp then result ||| mask else result
+      (mask >>> 1, cp, result)) st).2.2 < 256 := by
+  induction l with
+  | nil => intro st _ h; exact h
+  | cons x xs ih =>
+    intro st h1 h2
+    obtain ⟨mask, cp, result⟩ := st
+    simp only [List.foldl_cons]
+    apply ih
+    · simp only [Nat.shiftRight_eq_div_pow]; simp at h1 ⊢; omega
+    · have hor : result ||| mask < 256 := by
+        have : result ||| mask < 2 ^ 8 := Nat.or_lt_two_pow (by simpa using h2) (by simp at h1; omega)
+        simpa using this
+      have h2' : result < 256 := h2
+      simp only
+      repeat' split
+      all_goals first | exact hor | exact h2'
+
+theorem grayLoop_lt (n : Nat) : grayLoop n < 256 := by
+  unfold grayLoop
+  exact grayLoop_inv n (List.range 16) (0x80, false, 0) (by decide) (by decide)
+
+theorem graytobin_bounds (m : Msg) : (Sq.graytobin m).1 < 32 ∧ (Sq.graytobin m).2 ≤ 4 := by
+  unfold Sq.graytobin graytobinOfCode
+  simp only
+  constructor
+  · have := grayLoop_lt (extractBit (maCode m) 4 <<< 10 ||| extractBit (maCode m) 2 <<< 9 ||| extractBit (maCode m) 12 <<< 8 |||
+      extractBit (maCode m) 10 <<< 7 ||| extractBit (maCode m) 8 <<< 6 ||| extractBit (maCode m) 7 <<< 5 ||| extractBit (maCode m) 5 <<< 4 |||
+      extractBit (maCode m) 3 <<< 3 ||| extractBit (maCode m) 13 <<< 2 ||| extractBit (maCode m) 11 <<< 1 ||| extractBit (maCode m) 13)
+    rw [Nat.shiftRight_eq_div_pow]; omega
+  · repeat' split
+    all_goals omega
+
+
+theorem altitude_value_safe (m : Msg) (code : Option Nat) (hc : ∀ c, code = some c → c < 65536) : T.altitude_value.safe m code := by
+  unfold T.altitude_value.safe
+  obtain ⟨hh, hlow⟩ := graytobin_bounds m
+  cases code with
+  | none => simp
+  | some c =>
+    have hcb := hc c rfl
+    have h7 : c >>> 7 < 512 := by rw [Nat.shiftRight_eq_div_pow]; omega
+    have hq : (c >>> 7) <<< 4 ||| (c >>> 2 &&& 0b1111) < 2 ^ 13 := by
+      apply Nat.or_lt_two_pow
+      · rw [Nat.shiftLeft_eq]; omega
+      · have : c >>> 2 &&& 0b1111 ≤ 0b1111 := Nat.and_le_right
+        omega
+    simp only
+    generalize Sq.graytobin m = g at hh hlow
+    obtain ⟨high, low⟩ := g
+    simp only at hh hlow
+    refine ⟨?_, ?_, ?_, ?_, ?_, ?_, ?_, ?_⟩ <;> (intros; first | omega | (simp only [Nat.reducePow] at hq ⊢; omega))
+
+theorem altitude_safe (m : Msg) (df : Nat) (L : df = 17 → Long m) : T.altitude.safe m df := by
+  unfold T.altitude.safe
+  refine ⟨fun h => me_code_safe m (L h), ?_⟩
+  apply altitude_value_safe
+  intro c hc
+  by_cases h17 : df = 17
+  · simp only [h17, if_true] at hc
+    have e := Bridge.me_code_eq m
+    rw [e] at hc
+    unfold meCode at hc
+    cases hq : flagAndRangeValue m 48 41 52 with
+    | none => rw [hq] at hc; cases hc
+    | some fv => rw [hq] at hc; injection hc with hc; rw [← hc]; exact Nat.mod_lt _ (by decide)
+  · simp only [h17, if_false, maCodeOpt] at hc
+    injection hc with hc
+    have := maCode_lt m
+    omega
+
+theorem squawk_safe (m : Msg) : T.squawk.safe m := by
+  unfold T.squawk.safe
+  simp only [maCodeOpt]
+  have hb : ∀ a b c : Nat, (((a &&& 1) <<< 2) ||| ((b &&& 1) <<< 1)) ||| (c &&& 1) < 8 := by
+    intro a b c
+    have h1 : a &&& 1 ≤ 1 := Nat.and_le_right
+    have h2 : b &&& 1 ≤ 1 := Nat.and_le_right
+    have h3 : c &&& 1 ≤ 1 := Nat.and_le_right
+    have : (((a &&& 1) <<< 2) ||| ((b &&& 1) <<< 1)) ||| (c &&& 1) < 2 ^ 3 := by
+      apply Nat.or_lt_two_pow
+      · apply Nat.or_lt_two_pow <;> (rw [Nat.shiftLeft_eq]; omega)
+      · omega
+    simpa using this
+  generalize maCode m = code
+  have h1 := hb (code >>> 8) (code >>> 10) (code >>> 12)
+  have h2 := hb (code >>> 3) (code >>> 5) (code >>> 7)
+  have h3 := hb (code >>> 9) (code >>> 11) (code >>> 13)
+  have h4 := hb (code >>> 2) (code >>> 4) (code >>> 6)
+  refine ⟨?_, ?_, ?_, ?_, ?_, ?_⟩ <;> omega
+
+theorem threat_encounter_safe (m : Msg) (L : Long m) : T.threat_encounter.safe m := by
+  unfold T.threat_encounter.safe; have := L.len; omega
+
+theorem ia5_safe (c : Nat) : T.ia5.safe c := trivial
+
+theorem ais_safe (m : Msg) (L : Long m) : T.ais.safe m := by
+  unfold T.ais.safe
+  have := L.len
+  refine ⟨by omega, by omega, by omega, by omega, by omega, by omega, by omega, by omega, by omega, by omega, by omega, by omega, ?_⟩
+  intro p _; trivial
+
+theorem wake_safe (vc : Nat × Nat) : T.get_wake_turbulence_category.safe vc := trivial
+
+theorem cpr_safe (m : Msg) (L : Long m) : T.cpr.safe m := by
+  unfold T.cpr.safe
+  have := L.len
+  refine ⟨by omega, by omega, by omega, ?_, ?_⟩ <;> (split <;> first | omega | trivial)
+
+theorem ground_track_safe (m : Msg) (L : Long m) : T.ground_track.safe m := by
+  unfold T.ground_track.safe
+  have hl := L.len
+  refine ⟨by omega, by omega, by omega, ?_⟩
+  frv_cases m L 45 46 52
+  split
+  · rename_i v heq
+    split at heq
+    · injection heq with heq; subst heq; simp only; omega
+    · cases heq
+  · trivial
+
+theorem heading_safe (m : Msg) (L : Long m) : T.heading.safe m := by
+  unfold T.heading.safe; have := L.len; omega
+
+
+theorem sfrv (m : Msg) (L : Long m) (st flag sb eb : Nat) (hs : 1 ≤ st) (hs2 : st ≤ 112) (hf : 1 ≤ flag) (hf2 : flag ≤ 112)
+    (h1 : 1 ≤ sb) (h2 : sb ≤ eb) (h3 : eb ≤ 112) :
+    ∃ s f v, statusFlagAndRangeValue m st flag sb eb = some (s, f, v) ∧ s < 2 ∧ f < 2 ∧ v < 2 ^ (eb + 1 - sb) := by
+  have hl := L.len
+  refine ⟨field m st st, field m flag flag, field m sb eb,
+    statusFlagAndRangeValue_eq m L.nib st flag sb eb hs (by omega) hf (by omega) h1 h2 (by omega), ?_, ?_, field_lt m sb eb⟩
+  · have := field_lt m st st; have e : st + 1 - st = 1 := by omega
+    rw [e] at this; exact this
+  · have := field_lt m flag flag; have e : flag + 1 - flag = 1 := by omega
+    rw [e] at this; exact this
+
+theorem opt_filter_cases {α : Type} (p : α → Bool) (x : α) : Option.filter p (some x) = some x ∨ Option.filter p (some x) = none := by
+  simp only [Option.filter]; split <;> simp
+
+set_option hygiene false in
+/-- rewrite a `(status, flag, field)` extraction in the goal and split on the filter that follows it -/
+macro "sfrv_cases" m:term:max L:term:max st:num f:num s:num e:num : tactic =>
+  `(tactic| (obtain ⟨s_, f_, v_, hv_, hs_, hf_, hb_⟩ := sfrv $m $L $st $f $s $e (by decide) (by decide) (by decide) (by decide) (by decide) (by decide) (by decide)
+             simp only [Nat.reducePow, Nat.reduceAdd, Nat.reduceSub] at hb_
+             rw [hv_]))
+
+theorem i32_of_small (x : Nat) (h : x < 2147483648) : u32ToI32 x = (x : Int) ∧ (0 : Int) ≤ (x : Int) ∧ (x : Int) < 2147483648 :=
+  ⟨u32ToI32_small x h, Int.natCast_nonneg _, by exact_mod_cast h⟩
+
+theorem roll_angle_safe (sign value : Nat) (h : value < 512) : T.roll_angle.safe sign value := by
+  unfold T.roll_angle.safe
+  obtain ⟨e, h0, _⟩ := i32_of_small value (by omega)
+  have h' : (value : Int) < 512 := by exact_mod_cast h
+  rw [e]
+  refine ⟨by omega, by decide, fun _ => ?_⟩
+  have h1 : (0 : Int) ≤ Int.tdiv ((value : Int) * 45) 256 := Int.tdiv_nonneg (by omega) (by decide)
+  have h2 : Int.tdiv ((value : Int) * 45) 256 ≤ (value : Int) * 45 := Int.tdiv_le_self _ (by omega)
+  omega
+
+theorem roll_angle_5_0_safe (m : Msg) (L : Long m) : T.roll_angle_5_0.safe m := by
+  unfold T.roll_angle_5_0.safe
+  have hl := L.len
+  refine ⟨by omega, by omega, by omega, by omega, ?_⟩
+  sfrv_cases m L 33 34 35 43
+  rcases opt_filter_cases (fun f => f.1 == 1) (s_, f_, v_) with h | h <;> rw [h]
+  · exact roll_angle_safe f_ v_ hb_
+  · trivial
+
+theorem track_angle_safe (sign value : Nat) (h : value < 1024) : T.track_angle.safe sign value := by
+  unfold T.track_angle.safe
+  refine ⟨by omega, fun _ => ?_⟩
+  rw [Nat.shiftRight_eq_div_pow]; omega
+
+theorem track_angle_5_0_safe (m : Msg) (L : Long m) : T.track_angle_5_0.safe m := by
+  unfold T.track_angle_5_0.safe
+  have hl := L.len
+  refine ⟨by omega, by omega, by omega, by omega, ?_⟩
+  sfrv_cases m L 44 45 46 55
+  rcases opt_filter_cases (fun f => f.1 == 1) (s_, f_, v_) with h | h <;> rw [h]
+  · exact track_angle_safe f_ v_ hb_
+  · trivial
+
+theorem track_angle_rate_safe (sign value : Nat) (h : value < 512) : T.track_angle_rate.safe sign value := by
+  unfold T.track_angle_rate.safe
+  simp only []
+  intro _
+  have hb : (value <<< 3) >>> 8 < 2147483648 := by
+    rw [Nat.shiftLeft_eq, Nat.shiftRight_eq_div_pow]; omega
+  obtain ⟨e, h0, _⟩ := i32_of_small _ hb
+  rw [e]; omega
+
+theorem track_angle_rate_5_0_safe (m : Msg) (L : Long m) : T.track_angle_rate_5_0.safe m := by
+  unfold T.track_angle_rate_5_0.safe
+  have hl := L.len
+  refine ⟨by omega, by omega, by omega, by omega, ?_⟩
+  sfrv_cases m L 67 68 69 77
+  rcases opt_filter_cases (fun f => f.1 == 1) (s_, f_, v_) with h | h <;> rw [h]
+  · exact track_angle_rate_safe f_ v_ hb_
+  · trivial
+
+theorem ground_speed_5_0_safe (m : Msg) (L : Long m) : T.ground_speed_5_0.safe m := by
+  unfold T.ground_speed_5_0.safe; have := L.len; omega
+theorem true_airspeed_5_0_safe (m : Msg) (L : Long m) : T.true_airspeed_5_0.safe m := by
+  unfold T.true_airspeed_5_0.safe; have := L.len; omega
+
+theorem magnetic_heading_safe (sign value : Nat) (h : value < 1024) : T.magnetic_heading.safe sign value := by
+  unfold T.magnetic_heading.safe
+  refine ⟨by omega, fun _ => ?_⟩
+  rw [Nat.shiftRight_eq_div_pow]; omega
+
+theorem magnetic_heading_6_0_safe (m : Msg) (L : Long m) : T.magnetic_heading_6_0.safe m := by
+  unfold T.magnetic_heading_6_0.safe
+  have hl := L.len
+  refine ⟨by omega, by omega, by omega, by omega, ?_⟩
+  sfrv_cases m L 33 34 35 44
+  rcases opt_filter_cases (fun f => f.1 == 1) (s_, f_, v_) with h | h <;> rw [h]
+  · exact magnetic_heading_safe f_ v_ hb_
+  · trivial
+
+theorem indicated_airspeed_6_0_safe (m : Msg) (L : Long m) : T.indicated_airspeed_6_0.safe m := by
+  unfold T.indicated_airspeed_6_0.safe; have := L.len; omega
+theorem mach_number_6_0_safe (m : Msg) (L : Long m) : T.mach_number_6_0.safe m := by
+  unfold T.mach_number_6_0.safe; have := L.len; omega
+
+theorem barometric_altitude_rate_safe (sign value : Nat) (h : value < 512) : T.barometric_altitude_rate.safe sign value := by
+  unfold T.barometric_altitude_rate.safe
+  obtain ⟨e, h0, _⟩ := i32_of_small value (by omega)
+  have h' : (value : Int) < 512 := by exact_mod_cast h
+  rw [e]
+  have e5 : (2 : Int) ^ 5 = 32 := by decide
+  simp only [e5]
+  refine ⟨by omega, fun _ => by omega⟩
+
+theorem barometric_altitude_rate_6_0_safe (m : Msg) (L : Long m) : T.barometric_altitude_rate_6_0.safe m := by
+  unfold T.barometric_altitude_rate_6_0.safe
+  have hl := L.len
+  refine ⟨by omega, by omega, by omega, by omega, ?_⟩
+  sfrv_cases m L 67 68 69 77
+  rcases opt_filter_cases (fun f => (f.1 == 1) && (f.2.2 != 0)) (s_, f_, v_) with h | h <;> rw [h]
+  · exact barometric_altitude_rate_safe f_ v_ hb_
+  · trivial
+
+theorem internal_vertical_velocity_safe (sign value : Nat) (h : value < 512) : T.internal_vertical_velocity.safe sign value := by
+  unfold T.internal_vertical_velocity.safe
+  simp only []
+  intro _
+  have hb : value <<< 5 < 2147483648 := by rw [Nat.shiftLeft_eq]; omega
+  obtain ⟨e, h0, _⟩ := i32_of_small _ hb
+  rw [e]
+  have : ((value <<< 5 : Nat) : Int) < 16384 := by
+    have : value <<< 5 < 16384 := by rw [Nat.shiftLeft_eq]; omega
+    exact_mod_cast this
+  omega
+
+theorem internal_vertical_velocity_6_0_safe (m : Msg) (L : Long m) : T.internal_vertical_velocity_6_0.safe m := by
+  unfold T.internal_vertical_velocity_6_0.safe
+  have hl := L.len
+  refine ⟨by omega, by omega, by omega, by omega, ?_⟩
+  sfrv_cases m L 78 79 80 88
+  rcases opt_filter_cases (fun f => (f.1 == 1) && (f.2.2 != 0)) (s_, f_, v_) with h | h <;> rw [h]
+  · exact internal_vertical_velocity_safe f_ v_ hb_
   · trivial
 
 end Sq.Safe
